@@ -25,6 +25,9 @@ def run(tier, seed):
         add_call, merge_call = mr.std_calls(ty)
         mk = lambda P, tag="", ty=ty: mr.rep_state(cr, ty, P, tag)
         mr.check_merge(pr, cr, ty, mr.ORDER[ty], f + "::<%s as Merge>::merge" % ty, mk, mr.read_state, merge_call, mr.keyfmt_std)
+        if ty != "Mean":
+            # modular variant: the nested merge is used through its contract, not its body
+            mr.check_merge_modular(pr, cr, ty, mr.ORDER[ty], f + "::<%s as Merge>::merge" % ty)
     orders = [4, 5, 6] if tier == "quick" else [4, 5, 6, 8, 10]
     for N in orders:
         moments_merge(pr, N)
@@ -43,7 +46,7 @@ def run(tier, seed):
                                      "Skewness::{is_empty,len,mean}", "Kurtosis::{is_empty,len,mean}"] +
                                     ["<Moments%d as Merge>::merge (define_moments!), IterBinomial::{new,next}" % N for N in orders],
         "source_files": ["src/moments/mean.rs", "src/moments/variance.rs", "src/moments/skewness.rs", "src/moments/kurtosis.rs", "src/moments/mod.rs"],
-        "extraction": EXTRACTION + "; define_moments_common!/define_moments_inner! are instantiated by token substitution ($name, $MAX_MOMENT, $crate) and parsed, nothing else is rewritten; callees (Skewness::merge inside Kurtosis::merge, ...) are executed from their real bodies, not assumed",
+        "extraction": EXTRACTION + "; define_moments_common!/define_moments_inner! are instantiated by token substitution ($name, $MAX_MOMENT, $crate) and parsed, nothing else is rewritten; callees (Skewness::merge inside Kurtosis::merge, ...) are executed from their real bodies in the main obligations, and additionally every nested merge is replaced by its CONTRACT (requires checked, state havocked, ensures assumed) in the `via_contract_of_*` obligations, so each merge is also proved modularly from the contract of the merge it delegates to",
         "trusted_base": ["rsx + RS executor (own code)", "sympy polynomial arithmetic", "z3 5.1 nlsat", "Verus (merge-tree lemma)"],
         "assumptions": [A_REAL, A_INT, A_LIB,
                         "configurations: define_moments! orders %s (loops unrolled: bounds are the macro parameter, complete per order)" % orders,
